@@ -339,6 +339,7 @@ static long mem_drift(struct jpeg_memory_mgr *pub)
   }
   return (long)mem->total_space_allocated - (long)sum;
 }
+static long perm_total(struct jpeg_memory_mgr *pub) { return pub ? (long)((my_mem_ptr)pub)->total_space_allocated : 0L; }
 static int image_pool_empty(struct jpeg_memory_mgr *pub)
 {
   my_mem_ptr mem = (my_mem_ptr)pub;
@@ -374,9 +375,10 @@ static void dump_state(tjinstance *t, char *out, size_t cap)
                   d->saw_JFIF_marker, d->saw_Adobe_marker, d->Adobe_transform);
   } else
     n += snprintf(out + n, cap - n, "d:- ");
-  n += snprintf(out + n, cap - n, "m:%ld,%d,%ld,%d ",
+  n += snprintf(out + n, cap - n, "m:%ld,%d,%ld,%d,%ld,%ld ",
                 (t->init & COMPRESS) ? mem_drift(t->cinfo.mem) : 0L, (t->init & COMPRESS) ? image_pool_empty(t->cinfo.mem) : 1,
-                (t->init & DECOMPRESS) ? mem_drift(t->dinfo.mem) : 0L, (t->init & DECOMPRESS) ? image_pool_empty(t->dinfo.mem) : 1);
+                (t->init & DECOMPRESS) ? mem_drift(t->dinfo.mem) : 0L, (t->init & DECOMPRESS) ? image_pool_empty(t->dinfo.mem) : 1,
+                (t->init & COMPRESS) ? perm_total(t->cinfo.mem) : 0L, (t->init & DECOMPRESS) ? perm_total(t->dinfo.mem) : 0L);
   /* are the marker reader's methods the ones jinit_marker_reader installed? */
   n += snprintf(out + n, cap - n, "k:%d,%d,%d ",
                 (t->init & DECOMPRESS) ? (t->dinfo.marker->read_markers == orig_read_markers) : 1,
@@ -598,6 +600,103 @@ static void run_op(struct runctx *rc, char **tk, int nt, struct opres *r)
     r->rc = tj3DecompressToYUV8(h, jb, n, out, 1);
     hash = fnv(out, osz, hash); r->outn = osz;
     free(out); free(jb);
+  } else if (!strcmp(op, "ldy")) {
+    /* ldy <jref> <flags> : tjDecompressToYUV2 (width = height = 0: unscaled) */
+    size_t n, osz;
+    unsigned char *jb = get_jpeg(ARG(1), &n);
+    unsigned char *out;
+    int mw, mh;
+    if (!dim_bound(jb, n, &mw, &mh)) { free(jb); r->rc = -98; r->hash = hash; strcpy(r->stage, "SKIP"); return; }
+    osz = (size_t)(mw * 2 + 64) * (mh * 2 + 64) * 3;
+    out = malloc(osz);
+    memset(out, 0xA5, osz);
+    r->rc = tjDecompressToYUV2(h, jb, (unsigned long)n, out, 0, 1, 0, IARG(2));
+    hash = fnv(out, osz, hash); r->outn = osz;
+    free(out); free(jb);
+  } else if (!strcmp(op, "dyp")) {
+    /* dyp <jref> : tj3DecompressToYUVPlanes8 called directly (planes and strides computed from a header parse of a
+       throw-away instance, as an application would) */
+    size_t n, osz;
+    unsigned char *jb = get_jpeg(ARG(1), &n);
+    unsigned char *out, *planes[3];
+    int mw, mh, strides[3];
+    if (!dim_bound(jb, n, &mw, &mh)) { free(jb); r->rc = -98; r->hash = hash; strcpy(r->stage, "SKIP"); return; }
+    osz = (size_t)(mw * 2 + 64) * (mh * 2 + 64) * 3;
+    out = malloc(osz);
+    memset(out, 0xA5, osz);
+    planes[0] = out; planes[1] = out + osz / 3; planes[2] = out + 2 * (osz / 3);
+    strides[0] = strides[1] = strides[2] = mw * 2 + 64;
+    r->rc = tj3DecompressToYUVPlanes8(h, jb, n, planes, strides);
+    hash = fnv(out, osz, hash); r->outn = osz;
+    free(out); free(jb);
+  } else if (!strcmp(op, "si") || !strcmp(op, "li")) {
+    /* si <prec> <w> <h> <seed> <pf> <bmp> : tj3SaveImage*  ;  li <prec> <bmp> <pf> : tj3LoadImage* of a file that a
+       throw-away default instance wrote */
+    static char path[600];
+    const char *dir = getenv("VERIF_BUILD");
+    int save = op[0] == 's';
+    int prec = IARG(1), bmp = save ? IARG(6) : IARG(2), pf = pf_of(save ? ARG(5) : ARG(3));
+    int w = save ? IARG(2) : 23, hh = save ? IARG(3) : 17, seed = save ? IARG(4) : 5, ps;
+    void *px;
+    if (prec != 8 && prec != 12 && prec != 16) prec = 8;
+    if (bmp && prec != 8) bmp = 0;
+    if (w < 1 || w > MAXDIM) w = 16;
+    if (hh < 1 || hh > MAXDIM) hh = 16;
+    if (pf == TJPF_CMYK && bmp) pf = TJPF_RGB;
+    ps = tjPixelSize[pf];
+    snprintf(path, sizeof(path), "%s/harness/c12tmp-%d.%s", dir ? dir : "/verif/build", (int)getpid(), bmp ? "bmp" : "ppm");
+    px = malloc((size_t)w * hh * ps * 2);
+    fill_pixels(px, prec, w, hh, ps, seed);
+    if (save) {
+      FILE *fp;
+      if (prec == 8) r->rc = tj3SaveImage8(h, path, (unsigned char *)px, w, 0, hh, pf);
+      else if (prec == 12) r->rc = tj3SaveImage12(h, path, (short *)px, w, 0, hh, pf);
+      else r->rc = tj3SaveImage16(h, path, (unsigned short *)px, w, 0, hh, pf);
+      if ((fp = fopen(path, "rb")) != NULL) {
+        static unsigned char fb[1 << 20];
+        size_t k = fread(fb, 1, sizeof(fb), fp);
+        hash = fnv(fb, k, hash); r->outn = k;
+        fclose(fp);
+      }
+    } else {
+      tjhandle tmp = tj3Init(TJINIT_DECOMPRESS);
+      int lw = 0, lh = 0, lpf = pf;
+      void *img = NULL;
+      int wpf = (pf == TJPF_CMYK) ? TJPF_RGB : pf;
+      tj3Set(tmp, TJPARAM_PRECISION, prec);
+      if (prec == 8) tj3SaveImage8(tmp, path, (unsigned char *)px, w, 0, hh, wpf);
+      else if (prec == 12) tj3SaveImage12(tmp, path, (short *)px, w, 0, hh, wpf);
+      else tj3SaveImage16(tmp, path, (unsigned short *)px, w, 0, hh, wpf);
+      tj3Destroy(tmp);
+      if (prec == 8) img = tj3LoadImage8(h, path, &lw, 1, &lh, &lpf);
+      else if (prec == 12) img = tj3LoadImage12(h, path, &lw, 1, &lh, &lpf);
+      else img = tj3LoadImage16(h, path, &lw, 1, &lh, &lpf);
+      r->rc = img ? 0 : -1;
+      hash = fnv(&lw, sizeof(lw), hash); hash = fnv(&lh, sizeof(lh), hash); hash = fnv(&lpf, sizeof(lpf), hash);
+      if (img) { size_t k = (size_t)lw * lh * tjPixelSize[lpf] * (prec > 8 ? 2 : 1); hash = fnv(img, k, hash); r->outn = k; tj3Free(img); }
+    }
+    unlink(path);
+    free(px);
+  } else if (!strcmp(op, "mb")) {
+    /* mb <w> : TJPARAM_MAXMEMORY boundary: the largest height (binary search) for which a progressive grayscale
+       compression of a <w> x H image still succeeds under the instance's current memory limit */
+    int w = IARG(1), lo = 8, hi = 60000;
+    unsigned char *px;
+    if (w != 8 && w != 16 && w != 24 && w != 32) w = 16;
+    px = malloc((size_t)w * hi);
+    memset(px, 0x55, (size_t)w * hi);
+    tj3Set(h, TJPARAM_PROGRESSIVE, 1);
+    while (lo < hi) {
+      int mid = (lo + hi + 1) / 2, ok;
+      unsigned char *jb = NULL;
+      size_t js = 0;
+      ok = tj3Compress8(h, px, w, 0, mid, TJPF_GRAY, &jb, &js) == 0;
+      tj3Free(jb);
+      if (ok) lo = mid; else hi = mid - 1;
+    }
+    r->rc = 0;
+    hash = fnv(&lo, sizeof(lo), hash); r->outn = (size_t)lo;
+    free(px);
   } else if (!strcmp(op, "uy")) {
     /* uy <w> <h> <seed> <pf> : tj3DecodeYUV8 (uses this->subsamp) */
     int w = IARG(1), hh = IARG(2), seed = IARG(3), pf = pf_of(ARG(4));
